@@ -1,9 +1,9 @@
 """schc_run.py -- batch executor for SCHC-layer cases: implementation vs extracted Coq model
 (correspondence) and implementation vs independent reference (property oracle)."""
 import signal
-from core import Driver, impl_outcome, bits_of, mk, L, R, Buffer
+from core import Driver, impl_outcome, bits_of, mk, L, R, Buffer, raw
 from schc_util import (n_rule, n_pdesc, rule_tokens, rules_tokens, pdesc_tokens, tb, DIRS, DIRC,
-                       ref_compress, ref_decompress, ref_rule_applies)
+                       ref_compress, ref_decompress, ref_rule_applies, raw_rule_tokens, raw_pdesc_tokens)
 from microschc.rfc8724 import PacketDescriptor, DirectionIndicator as DI
 from microschc.compressor.compressor import compress
 from microschc.decompressor.decompressor import decompress
@@ -112,19 +112,77 @@ def dopt(d):
     return 'N' if d is None else DIRC[d]
 
 
+def raw_obs(res_):
+    """implementation outcome -> ('OK', raw form of the Buffer: bytes, length, side, padding length) | ('EXC', name)"""
+    k, v = res_
+    if k == 'EXC':
+        return res_
+    if isinstance(v, Buffer):
+        return ('OK', raw(v))
+    return ('OK', 'NOT-A-BUFFER:%r' % (v,))
+
+
+def parse_model_raw(line):
+    if line.startswith('OK '):
+        return ('OK', line[3:])
+    if line.startswith('EXC '):
+        return ('EXC', line[4:])
+    if line == 'DIVERGE':
+        return ('EXC', 'Diverge')
+    return ('BAD', line)
+
+
+def bytes_case(batch, klass, yline, res_):
+    """the same call on the byte-level model (SchcBytes.v: the Buffer operations compress/decompress perform, on bytes):
+    the result must be the same Buffer down to its bytes, padding side and padding length.  Compute actions are outside
+    the byte-level decompress model (it answers Unmodelled): those cases are only counted."""
+    o = raw_obs(res_)
+
+    def parse(l, o=o, batch=batch):
+        if l == 'EXC Unmodelled':
+            batch.rep.hist['bytes-model:unmodelled(compute)'] = batch.rep.hist.get('bytes-model:unmodelled(compute)', 0) + 1
+            return o
+        return parse_model_raw(l)
+    batch.add('bytes:' + klass.split(':')[0], yline, o, parse, None, dict(layer='schc-bytes', driver_line_full=yline if len(yline) < 20000 else None), key=yline)
+
+
+def reloaded(rule):
+    """the rule as a deployment loads it: rebuilt from its JSON form (None when it has no JSON form)"""
+    try:
+        return type(rule).from_json(rule.json())
+    except Exception:  # noqa: BLE001
+        return None
+
+
+def also_reloaded(line):
+    """every third case (chosen by content) is also run with rules reloaded from JSON: enum members, buffers and
+    mappings are then other objects than the ones the rule was built with, equal by value only"""
+    import zlib
+    return zlib.crc32(line.encode()) % 3 == 0
+
+
 def case_compress(batch, pd, rule, d, klass='compress', extra=None):
     npd, nr = n_pdesc(pd), n_rule(rule)
-    out = obs_bits(with_timeout(lambda: compress(pd, rule, direction=d) if d is not None else compress(pd, rule)))
+    yline = ' '.join(['Y', 'bcompress'] + raw_pdesc_tokens(pd) + raw_rule_tokens(rule) + [dopt(d)])      # operands as they are BEFORE the call
+    res_ = with_timeout(lambda: compress(pd, rule, direction=d) if d is not None else compress(pd, rule))
+    out = obs_bits(res_)
+    bytes_case(batch, klass, yline, res_)
     line = ' '.join(['S', 'compress'] + pdesc_tokens(npd) + rule_tokens(nr) + [dopt(d)])
     ref = ref_compress(npd, nr, None if d is None else DIRC[d])
     fails = []
     if ref is not None:
         if out != ('OK', ref):
             fails.append('compress gives %s, RFC 8724 layout is %s' % (str(out)[:200], ref[:200]))
+    if also_reloaded(line):
+        r2 = reloaded(rule)
+        if r2 is not None and n_rule(r2) == nr:
+            out2 = obs_bits(with_timeout(lambda: compress(pd, r2, direction=d) if d is not None else compress(pd, r2)))
+            if out2 != out:
+                fails.append('compress with the rule reloaded from its JSON form gives %s, with the original objects %s' % (str(out2)[:120], str(out)[:120]))
     desc = dict(layer='schc', op='compress', pdesc=npd, rule=nr, direction=dopt(d))
     if extra:
         desc.update(extra)
-    batch.add(klass, line, out, parse_model_bits, fails if ref is not None else None, desc,
+    batch.add(klass, line, out, parse_model_bits, fails if (ref is not None or fails) else None, desc,
               key=('compress', line))
     return out
 
@@ -134,17 +192,26 @@ def case_decompress(batch, sbits, rule, d, klass='decompress', expect=None, side
     (outcome must be a buffer or RuleIDMatchError)."""
     nr = n_rule(rule)
     sb = mk(sbits, side)
-    out = obs_bits(with_timeout(lambda: decompress(sb, rule, direction=d) if d is not None else decompress(sb, rule)))
+    yline = ' '.join(['Y', 'bdecompress', raw(sb)] + raw_rule_tokens(rule) + [dopt(d)])
+    res_ = with_timeout(lambda: decompress(sb, rule, direction=d) if d is not None else decompress(sb, rule))
+    out = obs_bits(res_)
+    bytes_case(batch, klass, yline, res_)
     line = ' '.join(['S', 'decompress', tb(sbits)] + rule_tokens(nr) + [dopt(d)])
     fails = []
     if expect is not None and out != ('OK', expect):
         fails.append('decompress gives %s, expected %s' % (str(out)[:200], expect[:200]))
     if total and out[0] == 'EXC':
         fails.append('decompress raised %s' % out[1])
+    if also_reloaded(line):
+        r2 = reloaded(rule)
+        if r2 is not None and n_rule(r2) == nr:
+            out2 = obs_bits(with_timeout(lambda: decompress(mk(sbits, side), r2, direction=d) if d is not None else decompress(mk(sbits, side), r2)))
+            if out2 != out:
+                fails.append('decompress with the rule reloaded from its JSON form gives %s, with the original objects %s' % (str(out2)[:120], str(out)[:120]))
     desc = dict(layer='schc', op='decompress', schc=sbits, rule=nr, direction=dopt(d), side='L' if side == L else 'R')
     if extra:
         desc.update(extra)
-    batch.add(klass, line, out, parse_model_bits, fails if (expect is not None or total) else None, desc, key=('decompress', line))
+    batch.add(klass, line, out, parse_model_bits, fails if (expect is not None or total or fails) else None, desc, key=('decompress', line))
     return out
 
 
@@ -189,6 +256,17 @@ def case_match(batch, pd, rules, klass='match', extra=None, ruler=None):
         fails.append('matcher raised %s' % out[2])
     elif out[1] != want:
         fails.append('matcher yields rules %s, the rules that apply are %s' % (out[1], want))
+    if also_reloaded(line):
+        rl = [reloaded(r) for r in rules]
+        if all(r is not None for r in rl) and [n_rule(rl[i]) for i in visible] == nrs:
+            got2, exc2 = [], None
+            try:
+                for r in Ruler(rl).match_packet_descriptor(pd):
+                    got2.append([i for i, x in enumerate(rl) if x is r][0])
+            except Exception as e:  # noqa: BLE001
+                exc2 = type(e).__name__
+            if (tuple(got2), exc2) != (out[1], out[2]):
+                fails.append('with the rules reloaded from their JSON form the matcher yields %s %s, with the original objects %s %s' % (got2, exc2, out[1], out[2]))
     desc = dict(layer='schc', op='match', pdesc=npd, rules=nrs)
     if extra:
         desc.update(extra)
